@@ -6,6 +6,8 @@ import os
 import sys
 import warnings
 
+from fractions import Fraction
+
 import numpy as np
 from implutil import main, q
 
@@ -137,6 +139,9 @@ def handle(c):
             kw[nm] = {'shape': ()} if i in inscalar else {'val': v.copy()}
         kw['y'] = {'shape': ()} if yscalar else {'val': np.zeros(yshape)}
     comp = om.ExecComp(src, **opts, **kw)
+    if c.get('poly'):
+        # power-of-two step: on dyadic data the complex arithmetic is then exact (see check.py, exact tie)
+        comp.complex_stepsize = 2.0 ** -133
     p.model.add_subsystem('c', comp)
     for nm in vals0:
         p.model.connect('ivc.' + nm, 'c.' + nm)
@@ -196,6 +201,13 @@ def handle(c):
                         if got != 0.0:
                             msgs.append(tag + 'd y[%d] / d %s[%d] = %r, must be exactly 0' % (k, nm, l, got))
                             sig = sig or 'offdiag'
+                    elif c.get('poly') and not reduce_sum and Fraction(float(got)) != G.evq(
+                            tree, [Fraction(t_) for t_ in envs(tree, vals, c, k)], i)[1]:
+                        msgs.append(tag + 'd y[%d] / d %s[%d] = %r is not the exact rational derivative %s of the '
+                                    'polynomial %s on dyadic data (step 2^-133)' % (
+                                        k, nm, l, got, G.evq(tree, [Fraction(t_) for t_ in envs(tree, vals, c, k)],
+                                                             i)[1], src))
+                        bad_entries.append((ip, i, k, l, got, want))
                     elif not (abs(got - want) <= 1e-9 * max(1.0, abs(want))):
                         msgs.append(tag + 'd y[%d] / d %s[%d] = %r, exact derivative %r (%s, config %s, %s=%r)' % (
                             k, nm, l, got, want, src, cfg, nm, vals[nm].tolist()))
@@ -223,7 +235,8 @@ def handle(c):
     return {'res': res_all, 'ok': not msgs, 'msg': '; '.join(msgs[:3]), 'sig': sig,
             'kind': '%s:%s%s%s%s%s:pts%d' % (cfg, 'arr' if n > 1 else 'scalar', ':sum' if reduce_sum else '',
                                           ':colored' if colored else '', ':y()' if yscalar else '',
-                                          ':in()' if inscalar else '', len(c['points'])), 'src': src}
+                                          ':in()' if inscalar else '', len(c['points'])) + (':poly-exact' if c.get('poly') else ''),
+            'src': src}
 
 
 if __name__ == '__main__':
